@@ -493,6 +493,45 @@ pub fn run_c14(tier: &str, parity_odd: bool, shard: usize, nshards: usize, rep: 
         let _ = oracle::end_execution();
         let _ = oracle::take_violation();
     }
+    // ---- collections of handles hash like collections of slices (Hash::hash_slice is part of the impl): [T], Vec<T>, arrays, tuples
+    if shard == 0 {
+        let picks: Vec<&Vec<u8>> = uni.iter().filter(|x| x.len() <= 3).step_by(7).take(24).collect();
+        for (i, x) in picks.iter().enumerate() {
+            let y = picks[(i * 5 + 1) % picks.len()];
+            oracle::begin_execution(parity_odd);
+            cx.pair = format!("collections of handles: x={:02x?} y={:02x?}", x, y);
+            oracle::sys::set_crash_note(&cx.pair);
+            let (bx, by) = oracle::subject(|| (Bytes::copy_from_slice(x), Bytes::copy_from_slice(y)));
+            let (mx, my) = oracle::subject(|| (BytesMut::from(&x[..]), BytesMut::from(&y[..])));
+            let (sx, sy): (&[u8], &[u8]) = (&x[..], &y[..]);
+            cx.rep.evaluations += 8;
+            let checks: [(&str, bool); 8] = oracle::subject(|| {
+                [
+                    ("[Bytes; 2] as a slice", rec(&[bx.clone(), by.clone()][..]) == rec(&[sx, sy][..])),
+                    ("[Bytes; 1] as a slice", rec(&[bx.clone()][..]) == rec(&[sx][..])),
+                    ("Vec<Bytes>", rec(&vec![by.clone(), bx.clone(), by.clone()]) == rec(&vec![sy, sx, sy])),
+                    ("(Bytes, Bytes)", rec(&(bx.clone(), by.clone())) == rec(&(sx, sy))),
+                    ("[BytesMut; 2] as a slice", rec(&[mx.clone(), my.clone()][..]) == rec(&[sx, sy][..])),
+                    ("Vec<BytesMut>", rec(&vec![my.clone(), mx.clone()]) == rec(&vec![sy, sx])),
+                    ("(BytesMut, Bytes)", rec(&(mx.clone(), by.clone())) == rec(&(sx, sy))),
+                    ("[Bytes; 0] as a slice", rec(&[bx.clone(); 0][..]) == rec(&[sx; 0][..])),
+                ]
+            });
+            for (what, ok) in checks.iter() {
+                if !ok {
+                    cx.fail("Hash for collections of handles", what, "different write sequence".into(), "that of the collection of [u8] slices".into());
+                }
+            }
+            oracle::subject(|| {
+                drop(bx);
+                drop(by);
+                drop(mx);
+                drop(my);
+            });
+            let _ = oracle::end_execution();
+            let _ = oracle::take_violation();
+        }
+    }
     // ---- lengths of 2^31 and beyond (64-bit targets): zero-filled static data in reserved address space compared with
     // short strings - slice comparison looks at the common prefix and then at the lengths, so nothing is walked
     let mut giant_pairs = 0u64;
@@ -938,6 +977,58 @@ fn serde_part(uni: &[Vec<u8>], tier: &str, rep: &mut Report) {
             for (nm, tok) in [("Str", Token::Str(s)), ("BorrowedStr", Token::BorrowedStr(s)), ("String", Token::String(s))] {
                 entry(&format!("deserialize Bytes from {}", nm), &mut || assert_de_tokens(&b, &[tok]));
                 entry(&format!("deserialize BytesMut from {}", nm), &mut || assert_de_tokens(&m, &[tok]));
+            }
+        }
+    }
+    // deserialize_in_place into a place that already holds a *different* (longer / shorter) value, through serde's own value
+    // deserializers: the place must end up equal to the new value, whatever it held
+    {
+        use serde::de::value::{BorrowedBytesDeserializer, BytesDeserializer, Error as VErr, SeqDeserializer, StrDeserializer};
+        use serde::Deserialize;
+        let olds: [&[u8]; 3] = [b"", b"old-old-old-old", b"o"];
+        for (i, x) in uni.iter().enumerate() {
+            if x.len() > 40 || (x.len() == 2 && i % 50 != 0) {
+                continue;
+            }
+            for old in olds.iter() {
+                for via in 0..4 {
+                    let mut pb = Bytes::copy_from_slice(old);
+                    let mut pm = BytesMut::from(&old[..]);
+                    let s = std::str::from_utf8(x).ok();
+                    let r = catch_unwind(AssertUnwindSafe(|| -> Result<bool, VErr> {
+                        match via {
+                            0 => {
+                                Bytes::deserialize_in_place(SeqDeserializer::<_, VErr>::new(x.iter().cloned()), &mut pb)?;
+                                BytesMut::deserialize_in_place(SeqDeserializer::<_, VErr>::new(x.iter().cloned()), &mut pm)?;
+                            }
+                            1 => {
+                                Bytes::deserialize_in_place(BytesDeserializer::<VErr>::new(x), &mut pb)?;
+                                BytesMut::deserialize_in_place(BytesDeserializer::<VErr>::new(x), &mut pm)?;
+                            }
+                            2 => {
+                                Bytes::deserialize_in_place(BorrowedBytesDeserializer::<VErr>::new(x), &mut pb)?;
+                                BytesMut::deserialize_in_place(BorrowedBytesDeserializer::<VErr>::new(x), &mut pm)?;
+                            }
+                            _ => match s {
+                                Some(s) => {
+                                    Bytes::deserialize_in_place(StrDeserializer::<VErr>::new(s), &mut pb)?;
+                                    BytesMut::deserialize_in_place(StrDeserializer::<VErr>::new(s), &mut pm)?;
+                                }
+                                None => return Ok(true),
+                            },
+                        }
+                        Ok(pb[..] == x[..] && pm[..] == x[..])
+                    }));
+                    n += 1;
+                    match r {
+                        Ok(Ok(true)) => {}
+                        other => {
+                            if fails.len() < 20 {
+                                fails.push(format!("deserialize_in_place (source kind {}) into a place holding {:02x?}: {} | new value {:02x?}", via, old, match other { Ok(Ok(_)) => "the place does not hold the new value".to_string(), Ok(Err(e)) => format!("error {}", e), Err(_) => "panicked".to_string() }, x));
+                            }
+                        }
+                    }
+                }
             }
         }
     }
